@@ -79,6 +79,10 @@ class Unit:
     def witness_constraints(self, ctx):
         return []
 
+    def witness_candidates(self, ctx):
+        """optional: complete input assignments at which the encoding is validated in addition to solver models"""
+        return []
+
     def hunt_candidates(self, ctx):
         """optional: input assignments worth trying first when bug hunting (see hunt)"""
         return []
@@ -277,8 +281,13 @@ class Unit:
         extra = list(self.witness_constraints(ctx))
         block = []
         failures = []
-        for attempt in range(4):
-            values = ctx.model_of_pc(*(extra + block))
+        cands = [c for c in self.witness_candidates(ctx) if set(c) == set(ctx.inputs)] if not state.get("cands_done") else []
+        state["cands_done"] = True
+        for attempt in range(4 + len(cands)):
+            if attempt < len(cands):
+                values = dict(cands[attempt])      # hand-chosen boundary inputs (float-only behaviour the solver cannot steer to)
+            else:
+                values = ctx.model_of_pc(*(extra + block))
             if values is None:
                 break
             block.append(z3.Or([c != _val(values[n], c) for n, c in ctx.inputs.items()]) if ctx.inputs else z3.BoolVal(False))
@@ -297,6 +306,8 @@ class Unit:
                 problems = [f"comparison failed: {e!r}"]
             if not problems:
                 state["witness_ok"] += 1
+                if attempt < len(cands):
+                    continue                   # a boundary candidate agreed: go on to the next one / to the solver models
                 if failures:
                     state.setdefault("witness_retried", []).append(failures[0])
                 return
